@@ -9,4 +9,5 @@ CONSTANTS
   MaxSaves = 2
   MaxEvents = 1
   Dev <- DEmpt
+  Pairs2 = FALSE
 INVARIANT BareAfterAck
